@@ -175,7 +175,13 @@ def _names_only_test(e):
     if isinstance(e, ast.BinOp) and isinstance(e.op, (ast.BitAnd, ast.BitOr, ast.BitXor)):
         return _names_only_test(e.left) and _names_only_test(e.right)
     if isinstance(e, ast.Compare):
-        return _names_only_test(e.left) and all(_names_only_test(c) for c in e.comparators)
+        # (membership in a container of the instance, `sock in self._clients`: the caller's stability test looks at what happens to the container in between.
+        #  A bare `self.attr` is not accepted: `x = self.attr` may be a deliberate snapshot of shared state)
+        def operand(c, op):
+            if isinstance(op, (ast.In, ast.NotIn)) and isinstance(c, ast.Attribute) and isinstance(c.value, ast.Name) and c.value.id == 'self':
+                return True
+            return _names_only_test(c)
+        return _names_only_test(e.left) and all(operand(c, op) for c, op in zip(e.comparators, e.ops))
     if isinstance(e, ast.BoolOp):
         return all(_names_only_test(v) for v in e.values)
     if isinstance(e, ast.UnaryOp) and isinstance(e.op, ast.Not):
